@@ -149,3 +149,71 @@ class FaultyServer(RawDirServer):
     def __init__(self, server, root=None, script=None, **kw):
         super().__init__(server, root=root, **kw)
         self.script = script or Script()
+
+
+# --------------------------------------------------------------------------
+# bounded pipe (flow-control windows): the sender blocks when the direction is full
+# --------------------------------------------------------------------------
+class BoundedChanEnd(sftpbench.ChanEnd):
+    """ChanEnd whose send() blocks while `cap` or more unread bytes sit in its direction (flow-control
+    window / bounded pipe); once there is room the whole packet is accepted."""
+
+    def __init__(self, wire, rd, wr, name, cap):
+        super().__init__(wire, rd, wr, name)
+        self.cap = cap
+        self.blocked = 0  # times a send found the direction full and had to wait
+
+    def send(self, data):
+        d = self._wr
+        with d.cv:
+            while True:
+                if d.closed or self.closed:
+                    raise EOFError()
+                free = self.cap - len(d.buf)
+                if free > 0:
+                    break
+                self.blocked += 1
+                d.cv.wait(1.0)
+            # one send() = one whole SFTP packet (BaseSFTP._write_all is not atomic across threads, so partial
+            # sends from the prefetch thread and the caller would interleave; that is a different question from
+            # the back-pressure deadlock studied here) -> the bound is soft: a packet is accepted as soon as
+            # there is any room
+            part = bytes(data)
+            d.raw += part
+            self.wire._parse(d)
+            d.buf += part
+            d.cv.notify_all()
+        return len(part)
+
+    def recv(self, n):
+        out = super().recv(n)
+        with self._rd.cv:
+            self._rd.cv.notify_all()  # room for a blocked sender
+        return out
+
+
+class BoundedWire(sftpbench.Wire):
+    bounded = True
+
+    def __init__(self, c2s_cap, s2c_cap):
+        super().__init__()
+        self.caps = (c2s_cap, s2c_cap)
+        self.client_end = BoundedChanEnd(self, self.s2c, self.c2s, "vf-client", c2s_cap)
+        self.server_end = BoundedChanEnd(self, self.c2s, self.s2c, "vf-server", s2c_cap)
+
+
+class BoundedBench(sftpbench.Bench):
+    """Bench over a BoundedWire (same construction as sftpbench.Bench, which hard-codes Wire())."""
+
+    def __init__(self, root, c2s_cap, s2c_cap, si_cls=sftpbench.DirServer, si_kwargs=None):
+        import paramiko
+
+        self.root = root
+        self.wire = BoundedWire(c2s_cap, s2c_cap)
+        kw = dict(si_kwargs or {})
+        kw["root"] = root
+        self.server = SFTPServer(self.wire.server_end, "sftp", paramiko.ServerInterface(), si_cls, **kw)
+        self.server_exc = None
+        self.server_thread = threading.Thread(target=self._serve, daemon=True, name="vf-sftp-server")
+        self.server_thread.start()
+        self.client = paramiko.SFTPClient(self.wire.client_end)
